@@ -999,7 +999,7 @@ func (p *Core) closeResources(newConf *conf.Conf) {
 		newConf.RTSPEncryption != currentConf.RTSPEncryption ||
 		newConf.RTSPAddress != currentConf.RTSPAddress ||
 		!reflect.DeepEqual(newConf.RTSPAuthMethods, currentConf.RTSPAuthMethods) ||
-		newConf.RTSPUDPReadBufferSize != currentConf.RTSPUDPReadBufferSize ||
+		!reflect.DeepEqual(newConf.RTSPUDPReadBufferSize, currentConf.RTSPUDPReadBufferSize) ||
 		newConf.DumpPackets != currentConf.DumpPackets ||
 		newConf.UDPReadBufferSize != currentConf.UDPReadBufferSize ||
 		newConf.ReadTimeout != currentConf.ReadTimeout ||
@@ -1024,12 +1024,17 @@ func (p *Core) closeResources(newConf *conf.Conf) {
 		newConf.RTSPEncryption != currentConf.RTSPEncryption ||
 		newConf.RTSPSAddress != currentConf.RTSPSAddress ||
 		!reflect.DeepEqual(newConf.RTSPAuthMethods, currentConf.RTSPAuthMethods) ||
-		newConf.RTSPUDPReadBufferSize != currentConf.RTSPUDPReadBufferSize ||
+		!reflect.DeepEqual(newConf.RTSPUDPReadBufferSize, currentConf.RTSPUDPReadBufferSize) ||
 		newConf.DumpPackets != currentConf.DumpPackets ||
 		newConf.UDPReadBufferSize != currentConf.UDPReadBufferSize ||
 		newConf.ReadTimeout != currentConf.ReadTimeout ||
 		newConf.WriteTimeout != currentConf.WriteTimeout ||
 		newConf.WriteQueueSize != currentConf.WriteQueueSize ||
+		newConf.SRTPAddress != currentConf.SRTPAddress ||
+		newConf.SRTCPAddress != currentConf.SRTCPAddress ||
+		newConf.MulticastIPRange != currentConf.MulticastIPRange ||
+		newConf.MulticastSRTPPort != currentConf.MulticastSRTPPort ||
+		newConf.MulticastSRTCPPort != currentConf.MulticastSRTCPPort ||
 		newConf.RTSPServerCert != currentConf.RTSPServerCert ||
 		newConf.RTSPServerKey != currentConf.RTSPServerKey ||
 		newConf.RTSPAddress != currentConf.RTSPAddress ||
